@@ -13,6 +13,7 @@ import values
 LEAN_MODULE = "Kio.Props.C18"
 THEOREMS = [
     "Kio.C18.read_spec_partial",
+    "Kio.C18.read_spec_floor",
     "Kio.C18.magic",
     "Kio.C18.byte_corruption",
     "Kio.C18.crc_byte_change",
